@@ -43,6 +43,7 @@ SeekOp(mode, off, d, rs) == [op |-> "seek", mode |-> mode, off |-> off, d |-> d,
 Seeks == {SeekOp("start", o, 0, <<>>) : o \in {Zero, FromSmall(3), P40, MaxU64}} \cup {SeekOp("cur", Zero, d, <<>>) : d \in {0 - 1, 0, 2}}
          \cup {SeekOp("end", Zero, d, <<>>) : d \in {0 - 3, 0, 4, 0 - 11}} \cup {SeekOp("start", FromSmall(3), 0, <<Er>>), SeekOp("cur", Zero, 2, <<Er>>), SeekOp("end", Zero, 0, <<Er>>)}
          \cup {[op |-> "rewind", rs |-> <<>>], [op |-> "rewind", rs |-> <<Er>>], [op |-> "stream_position", rs |-> <<>>]}
+         \cup {[op |-> "seek_relative", d |-> d, rs |-> rs] : d \in {0 - 1, 2}, rs \in {<<>>, <<Er>>}}
 IoOps == {Rd("read", 4, 0, rs) : rs \in {<<Ok(0)>>, <<Ok(2)>>, <<Ok(4)>>, <<Er>>, <<In>>}} \cup {Rd("read", 0, 0, <<Ok(4)>>)}
          \cup {Rd("read_vectored", 2, 2, rs) : rs \in {<<Ok(0)>>, <<Ok(1)>>, <<Ok(3)>>, <<Ok(4)>>, <<Er>>}}
          \cup {Rd("read_exact", 4, 0, rs) : rs \in {<<Ok(4)>>, <<Ok(2), Ok(2)>>, <<Ok(2), Er>>, <<Ok(2), Ok(0)>>, <<In, Ok(4)>>, <<Er>>, <<Ok(0)>>, <<Ok(1), In, Ok(3)>>}}
